@@ -672,17 +672,36 @@ impl Program {
         }
     }
 
+    /// Returns whether this program is seven-bit safe, as calculated in PLtoTF.2014.110 and PLtoTF.2014.113.
+    ///
+    /// The program is unsafe if the program of a seven-bit character, or of the left boundary
+    ///     character, contains a ligature instruction that inserts a non-seven-bit character
+    ///     and whose right character is either a seven-bit character or the right boundary character.
+    /// As in PLtoTF (where `hash_input` returns false for them), instructions that can never be run
+    ///     because an earlier instruction of the same program has the same right character
+    ///     are not considered.
     pub fn is_seven_bit_safe(&self, entrypoints: HashMap<Char, u16>) -> bool {
         entrypoints
             .into_iter()
             .filter(|(c, _)| c.is_seven_bit())
-            .flat_map(|(_, e)| self.instructions_for_entrypoint(e))
-            .filter(|(_, instruction)| instruction.right_char.is_seven_bit())
-            .filter_map(|(_, instruction)| match instruction.operation {
-                Operation::Ligature { char_to_insert, .. } => Some(char_to_insert),
-                _ => None,
+            .map(|(_, e)| e)
+            .chain(self.left_boundary_char_entrypoint)
+            .all(|e| {
+                let mut seen = [false; 256];
+                self.instructions_for_entrypoint(e)
+                    .filter(|(_, instruction)| {
+                        !std::mem::replace(&mut seen[instruction.right_char.0 as usize], true)
+                    })
+                    .filter(|(_, instruction)| {
+                        instruction.right_char.is_seven_bit()
+                            || Some(instruction.right_char) == self.right_boundary_char
+                    })
+                    .filter_map(|(_, instruction)| match instruction.operation {
+                        Operation::Ligature { char_to_insert, .. } => Some(char_to_insert),
+                        _ => None,
+                    })
+                    .all(|c| c.is_seven_bit())
             })
-            .all(|c| c.is_seven_bit())
     }
 
     pub fn validate_and_fix<I, T>(
